@@ -211,6 +211,26 @@ def pick_losses(rng, vec, n):
     return ls
 
 
+def _diagnose_state(vec, l, strategy, mcs, use_low_rank, how, plan):
+    """narrow attribution of a wrong circuit state (recorded in case["cause"]; known findings are keyed on it):
+       qiskit_apply_a2  the circuit is exact (1e-9) when qiskit's private _apply_a2, called by qclib.unitary, is the identity;
+       other            otherwise.  Used only to label a failure, never to judge a case."""
+    try:
+        import qclib.unitary as qu
+        orig = qu._apply_a2
+        try:
+            qu._apply_a2 = lambda circuit: circuit
+            gate = baa_gate(vec, l, strategy, mcs, use_low_rank, how)
+            psi = np.asarray(Statevector(gate.definition).data)
+        finally:
+            qu._apply_a2 = orig
+        if float(np.abs(psi - plan).max()) < 1e-9:
+            return "qiskit_apply_a2"
+    except Exception:   # pylint: disable=broad-except
+        pass
+    return "other"
+
+
 # ------------------------------------------------------------------------------------------------ one case
 def eval_case(ctx, n, vec, l, strategy, mcs, use_low_rank, fam, how="full", check_cx=True):
     """True iff every clause of the property holds for this input/configuration."""
@@ -249,6 +269,8 @@ def eval_case(ctx, n, vec, l, strategy, mcs, use_low_rank, fam, how="full", chec
     # (b) circuit state == plan state
     plan = plan_state(vectors, qubits, n)
     perr = float(np.abs(psi - plan).max())
+    if not perr < ATOL or (l_eff == 0.0 and not float(np.abs(psi - vec).max()) < ATOL):
+        case["cause"] = _diagnose_state(vec, l, strategy, mcs, use_low_rank, how, plan)
     if not perr < ATOL:
         ok = False
         ctx.violation(f"BaaLowRankInitialize({cfg}): circuit state differs from the plan state (node.vectors on node.qubits) "
